@@ -112,7 +112,7 @@ Definition atom_re (h : head) : option (option (re * bool)) :=
   | HRanges PkChar cs => Some (class_re (cs_of_ranges cs) (test_ranges cs))
   | HString cs => Some (Some (cat_list (map lit cs), false))
   | HSeq | HSor | HStarPartial | HPlus | HPartial | HRep _ | HRepOpt _ | HRepMinMax _ _
-  | HIfMust _ | HMust => None
+  | HIfMust _ | HMust | HAt | HNotAt => None
   | _ => Some None                                    (* not in the supported fragment *)
   end.
 
@@ -152,6 +152,8 @@ Definition re_step (sub : rid -> option (re * bool)) (r : rid) (nd : node) : opt
           | _, _ => None
           end
       | HMust, [r1] => option_map (fun x => (fst x, true)) (sub r1)
+      | HAt, [r1] => option_map (fun _ => (Eps, false)) (sub r1)         (* look-ahead consumes nothing *)
+      | HNotAt, [r1] => option_map (fun _ => (Eps, false)) (sub r1)
       | _, _ => None
       end
     end
